@@ -25,6 +25,10 @@ pub struct Body {
 pub const FAR: usize = 1 << 40;
 
 pub fn draw_small_order(rng: &mut Rng, kind: ReprKind) -> usize {
+    if kind == ReprKind::Matrix && rng.chance(1, 12) {
+        // cells beyond 2^12: the row stride itself crosses a 64-bit word
+        return *rng.pick(&[63, 64, 65, 70]);
+    }
     if kind == ReprKind::Matrix && rng.chance(1, 2) {
         // 64, 81, 121, 144 bits: word boundaries of the bit matrix
         return *rng.pick(&[8, 9, 11, 12]);
